@@ -107,7 +107,10 @@ Payloads ==
     P(42, FALSE, [proto |-> 2, spis |-> << <<1, 2, 3, 4>>, <<5, 6, 7, 8>>, <<9, 9, 9, 9>> >>]),
     P(43, FALSE, [data |-> <<112, 121>>]), P(43, TRUE, [data |-> <<255, 254, 0>>]),
     P(44, FALSE, [ts |-> <<Ts4>>]), P(45, FALSE, [ts |-> <<Ts4p, Ts4>>]), P(44, FALSE, [ts |-> <<Ts6>>]), P(45, TRUE, [ts |-> <<Ts6, Ts6>>]),
-    P(99, FALSE, [data |-> <<1, 2, 3>>]), P(99, TRUE, [data |-> <<>>]), P(47, FALSE, [data |-> N16]) }
+    P(99, FALSE, [data |-> <<1, 2, 3>>]), P(99, TRUE, [data |-> <<>>]), P(47, FALSE, [data |-> N16]),
+    \* payload types that RFC 7296 defines but this implementation has no parser for (CERT, CERTREQ, CP, EAP) are unknown to it all the same: critical -> rejected
+    P(37, TRUE, [data |-> <<4, 1, 2>>]), P(38, TRUE, [data |-> <<4>>]), P(38, FALSE, [data |-> <<4>>]), P(47, TRUE, [data |-> <<1, 0, 0, 0>>]), P(48, TRUE, [data |-> <<1, 2, 0, 4>>]),
+    P(48, FALSE, [data |-> <<>>]) }
 
 Headers ==
   { [spi_i |-> si, spi_r |-> sr, major |-> v[1], minor |-> v[2], xchg |-> x, response |-> f[1], version |-> f[2], initiator |-> f[3], mid |-> m] :
